@@ -27,10 +27,13 @@ package drpcmanager
 //@ func (*streamBuffer).Close
 //@   props C12 C05
 //@   check [closed] sb.closed
+// Wait never parks on a closed buffer (Close is the last wake-up: a waiter that went back to sleep
+// after it would never be released) and reports false exactly when it found the buffer closed.
 //@ func (*streamBuffer).Wait
-//@   props C02 C13
+//@   props C02 C13 C05 C12
 //@   loop 1 invariant [sb] sb == sb0 && sid == sid0
-//@   check [closed] !result ==> sb.closed
+//@   site (*Cond).Wait assert [C05,C12.no-wait-when-closed] !sb.closed
+//@   check [closed] !result == sb.closed
 
 //@ func (*Manager).log
 //@   inline
